@@ -373,6 +373,9 @@ type VerifAuditionResult struct {
 	HasData     map[string]bool
 	CSV         map[string]string // file name -> content, when collectDir is used
 	Panic       string
+	Members     []string            // members with an auditor state, in declaration order
+	Watchers    map[string][]string // variable -> watcher names (sorted)
+	ArrayVars   []string            // variables collected as arrays (sorted)
 }
 
 // VerifAudition parses cfgText, builds the real audition and collector around
@@ -464,13 +467,31 @@ func VerifAudition(cfgText string, events []VerifEvent, earlyExit bool, writeCSV
 		rep.judged = nil
 	}
 
+	for _, n := range cfg.audienceNames {
+		if _, ok := au.st.auditorStates[n]; ok {
+			res.Members = append(res.Members, n)
+		}
+	}
+	res.Watchers = make(map[string][]string)
+	for vn, v := range cfg.vars {
+		ws := append([]string(nil), v.watcherNames...)
+		sort.Strings(ws)
+		res.Watchers[vn.String()] = ws
+		if v.isArray {
+			res.ArrayVars = append(res.ArrayVars, vn.String())
+		}
+	}
+	sort.Strings(res.ArrayVars)
+
 	if err := au.processMoodChange(ctx, true, false, 0, "clear"); err != nil {
 		res.AuditErr = err.Error()
 	}
 	drain(-1)
 	for i, e := range events {
-		if res.AuditErr != "" {
-			break
+		if res.AuditErr != "" && e.Kind != "final" {
+			// audit() returns at the first error; its deferred
+			// checkFinal still runs.
+			continue
 		}
 		var err error
 		switch e.Kind {
@@ -494,7 +515,7 @@ func VerifAudition(cfgText string, events []VerifEvent, earlyExit bool, writeCSV
 			rep.start = time.Now().Add(-time.Duration(e.Ts * float64(time.Second)))
 			err = au.checkFinal(ctx)
 		}
-		if err != nil {
+		if err != nil && res.AuditErr == "" {
 			res.AuditErr = err.Error()
 		}
 		drain(i)
